@@ -221,8 +221,13 @@ theorem D_elems (o : Oracle) : ∀ (elem : Shape) (ec : Bool) (vs : List V) (p :
   | elem, ec, v :: rest, p, i, d, h => by
     simp only [D.completeElems, Impl.completeElems]
     split
-    · simp only [D.lift]
-      rw [D_elems o elem ec rest p (i + 1) _ h]
+    · cases rest.any V.isNull with
+      | true =>
+        simp only [↓reduceIte]
+        rw [D_elems o elem ec rest p (i + 1) _ h]
+      | false =>
+        simp only [Bool.false_eq_true, ↓reduceIte, D.lift]
+        rw [D_elems o elem ec rest p (i + 1) _ h]
     · rw [D_value o elem v _ d h]
       rw [D_elems o elem ec rest p (i + 1) _ h]
 end
